@@ -143,7 +143,7 @@ def replay(path):
     h = (rp.get("replay") or {}).get("harness", "sched_mpi")
     p = subprocess.run([b[h if h in b else "sched_mpi"], "--replay-case", rp["case"]], stdout=subprocess.PIPE, stderr=subprocess.STDOUT, text=True)
     print(p.stdout[-3000:])
-    if "REPLAY-VIOLATION" in p.stdout:
+    if "REPLAY-VIOLATION" in p.stdout or p.returncode < 0:      # a replay that dies on a signal reproduces a crash
         print("VIOLATION property=C04 replay=%s" % path)
         return 1
     return 0
